@@ -92,6 +92,9 @@ type Harness struct {
 	MaxSteps  int
 	MaxSim    time.Duration
 	IdleLimit time.Duration
+	// Enumerable: the decision tree of Body is finite and small; SIM_MODE=enumerate walks it
+	// completely (depth-first over the recorded decisions). Implies a fixed scheduling strategy.
+	Enumerable bool
 	// WarpTo2026 sleeps the fake clock to 2026 before starting (clock-derived ids).
 	WarpTo2026 bool
 }
@@ -135,7 +138,7 @@ func Execute(t *testing.T, h *Harness, tape *simrt.Tape, trace bool) (rr RunResu
 			if h.WarpTo2026 {
 				time.Sleep(time.Date(2026, 1, 1, 0, 0, 0, 0, time.UTC).Sub(time.Now()))
 			}
-			cfg := simrt.Config{Tape: tape, MaxSteps: h.MaxSteps, MaxSim: h.MaxSim, IdleLimit: h.IdleLimit}
+			cfg := simrt.Config{Tape: tape, MaxSteps: h.MaxSteps, MaxSim: h.MaxSim, IdleLimit: h.IdleLimit, FixedStrategy: h.Enumerable}
 			if trace {
 				cfg.Trace = func(s string) { c.log = append(c.log, s) }
 			}
@@ -363,6 +366,8 @@ func Main(t *testing.T, h *Harness) {
 		replayMain(t, h)
 	case "determinism":
 		determinismMain(t, h)
+	case "enumerate":
+		enumerateMain(t, h)
 	default:
 		batchMain(t, h)
 	}
@@ -567,5 +572,100 @@ func determinismMain(t *testing.T, h *Harness) {
 		hashes = append(hashes, fmt.Sprintf("%d:%s:%x:%x", seed, a.LogHash, a.Interleave, th))
 	}
 	out.States = hashes // per-seed fingerprints, compared across processes by vcheck
+	writeJSON(os.Getenv("SIM_OUT"), out)
+}
+
+// enumerateMain walks the complete decision tree of an Enumerable harness depth-first. The tree
+// is split among SIM_EW workers by the value of the first decision (worker SIM_EI takes values
+// congruent to it). Every leaf is one execution.
+func enumerateMain(t *testing.T, h *Harness) {
+	if !h.Enumerable {
+		t.Fatalf("harness %s is not enumerable", h.Name)
+	}
+	workers := int(envInt("SIM_EW", 1))
+	me := int(envInt("SIM_EI", 0))
+	maxLeaves := envInt("SIM_COUNT", 50_000_000)
+	budget := time.Duration(envInt("SIM_BUDGET_S", 3600)) * time.Second
+	out := BatchOut{Harness: h.Name, Property: h.Property, Stats: map[string]int{}, Reasons: map[string]int{}}
+	distinct := map[uint64]struct{}{}
+	states := map[string]struct{}{}
+	start := time.Now()
+	cand := []simrt.Decision{{S: simrt.Workload, K: me}}
+	complete := false
+	known := map[string]bool{}
+	knownSeen := map[string]bool{}
+	for _, k := range strings.Split(os.Getenv("SIM_KNOWN"), ",") {
+		if k != "" {
+			known[k] = true
+		}
+	}
+	for int64(out.Runs) < maxLeaves && time.Since(start) < budget {
+		rr := Execute(t, h, simrt.ReplayTape(0, cand, false), false)
+		rec := rr.Tape
+		if len(rec) == 0 || rec[0].K%workers != me || me >= rec[0].N {
+			complete = true // nothing in this worker's share
+			break
+		}
+		out.Runs++
+		out.Steps += int64(rr.Steps)
+		out.SimSeconds += rr.SimSeconds
+		out.Reasons[rr.Reason]++
+		for k, v := range rr.Stats {
+			out.Stats[k] += v
+		}
+		for _, s := range rr.States {
+			states[s] = struct{}{}
+		}
+		if rr.NonTrivial {
+			out.NonTrivial++
+			distinct[hash64(rr.Scenario)] = struct{}{}
+		}
+		if len(out.Samples) < 3 && rr.Scenario != nil && rr.NonTrivial && out.Runs%97 == 1 {
+			out.Samples = append(out.Samples, map[string]any{"leaf": out.Runs, "scenario": rr.Scenario})
+		}
+		if rr.Violation != nil {
+			cl := rr.Violation.Oracle + "/" + rr.Violation.Sig
+			if known[cl] {
+				out.Stats["known_finding_runs"]++
+				if !knownSeen[cl] {
+					knownSeen[cl] = true
+					out.Violations = append(out.Violations, ViolationReport{Violation: rr.Violation, Known: true, Reproduced: true, TapeLen: len(rr.Tape)})
+				}
+			} else {
+				rr.Seed = 0
+				vr := reportViolation(t, h, rr)
+				out.Violations = append(out.Violations, vr)
+				break
+			}
+		}
+		// next leaf: increment the last decision that has a sibling left
+		i := len(rec) - 1
+		for ; i >= 0; i-- {
+			step := 1
+			if i == 0 {
+				step = workers
+			}
+			if rec[i].K+step < rec[i].N {
+				rec[i].K += step
+				break
+			}
+		}
+		if i < 0 {
+			complete = true
+			break
+		}
+		cand = append([]simrt.Decision(nil), rec[:i+1]...)
+	}
+	if complete {
+		out.Stats["enumeration_complete"] = 1
+	}
+	out.WallSeconds = time.Since(start).Seconds()
+	for k := range distinct {
+		out.Distinct = append(out.Distinct, k)
+	}
+	for k := range states {
+		out.States = append(out.States, k)
+	}
+	sort.Strings(out.States)
 	writeJSON(os.Getenv("SIM_OUT"), out)
 }
